@@ -108,6 +108,9 @@ func firstLines(s string, n int) string {
 	return strings.Join(ls, "\n")
 }
 
+// probeReach: also run the soft per-block reachability probes
+var probeReach = true
+
 type solveStats struct {
 	mu       sync.Mutex
 	bySolver map[string]int
@@ -125,6 +128,11 @@ func dischargeAll(results []*funcResult, workDir string, timeoutS int, jobs int,
 	for _, fr := range results {
 		for _, o := range fr.obls {
 			all = append(all, job{fr, o})
+		}
+		if probeReach {
+			for _, o := range fr.reach {
+				all = append(all, job{fr, o})
+			}
 		}
 	}
 	ch := make(chan job)
@@ -177,6 +185,8 @@ func dischargeAll(results []*funcResult, workDir string, timeoutS int, jobs int,
 					// canaries must be refuted: sat is the good outcome
 					if r.answer == "sat" {
 						j.o.status = "discharged"
+					} else if r.answer == "unsat" && j.o.soft {
+						j.o.status = "unreachable"
 					} else if r.answer == "unsat" {
 						j.o.status = "failed"
 						j.o.output += "\nVACUOUS: assumptions of the function are contradictory or no exit is reachable"
